@@ -930,6 +930,82 @@ static void m3b_case(Tape &t)
 }
 
 // ------------------------------------------------------------- entry points
+// M6: a record the peer never sent, inserted by the man in the middle while the victim still has part of
+// its own flight to send (small output buffer: the flight takes several records and the handshake code
+// waits for room between them; the application feeds input whenever the engine asks for it, as a
+// select()-style loop does).  The record is a ChangeCipherSpec- or handshake-typed record whose payload
+// is a run of empty type-0 messages, other well-formed message headers, or arbitrary bytes.  Oracle: the
+// victim does not complete the handshake - bytes that are in no transcript hash (or in only one of the
+// two) must never be accepted as part of it.  Everything else is relayed unchanged.
+static void m6_case(Tape &t)
+{
+	unsigned sel = t.u8();
+	bool victim_server = (sel & 1) == 0;
+	static const uint16_t SU[] = { 0x009C, 0xC02F, 0x002F, 0xC02B };
+	uint16_t suite = SU[(sel >> 1) % 4];
+	Profile cp, sp;
+	cp.suites = { suite }; sp.suites = { suite };
+	sp.key = keys_for(wt::suite_by_id(suite))[0];
+	cp.vmin = cp.vmax = sp.vmin = sp.vmax = 0x0303;
+	cp.layout = sp.layout = L_SPLIT;
+	Profile &vp = victim_server ? sp : cp;
+	vp.olen = 512 + 85;                       // the victim's flight leaves in 512-byte records
+	if (!victim_server) cp.min_clienthello_len = 512 + 40 + (t.u8() % 200);   // a ClientHello longer than one record (padding extension)
+	BearClient c(cp);
+	BearServer s(sp);
+	VF_CHECK(c.reset() && s.reset(), "m6: reset");
+	BearEndpoint *v = victim_server ? (BearEndpoint *)&s : (BearEndpoint *)&c, *o = victim_server ? (BearEndpoint *)&c : (BearEndpoint *)&s;
+	unsigned type = t.pick<unsigned>({ 20, 20, 20, 22 });
+	unsigned shape = t.u8() % 4;
+	Bytes pl;
+	unsigned n = 1 + t.u8() % 10;
+	if (shape == 0) pl.assign(4 * n, 0);                                                       // n empty type-0 messages
+	else if (shape == 1) { pl = { 1 }; }                                                       // a plain ChangeCipherSpec byte
+	else if (shape == 2) { for (unsigned i = 0; i < n; i++) { pl.push_back(0); pl.push_back(0); pl.push_back(0); pl.push_back(0); } pl.push_back((uint8_t)t.pick<unsigned>({ 2, 11, 16, 14 })); pl.push_back(0); pl.push_back(0); pl.push_back(0); }
+	else pl = t.filled(1 + t.u8() % 40);
+	Bytes inj = { (uint8_t)type, 3, 3, (uint8_t)(pl.size() >> 8), (uint8_t)pl.size() };
+	inj.insert(inj.end(), pl.begin(), pl.end());
+	unsigned after = t.u8() % 6;      // inserted once the victim has handed over this many output records and still has one pending
+	bool injected = false;
+	unsigned taken = 0;
+	auto move = [&](BearEndpoint *from, BearEndpoint *to) {
+		const uint8_t *p;
+		size_t k = from->wire_out_peek(&p);
+		if (!k) return false;
+		Bytes tmp(p, p + k);
+		from->wire_out_ack(k);
+		size_t off = 0;
+		while (off < tmp.size() && !to->closed()) { size_t room = to->wire_in_room(); if (!room) break; size_t q = std::min(room, tmp.size() - off); to->wire_in(tmp.data() + off, q); off += q; }
+		return true;
+	};
+	for (int g = 0; g < 400; g++) {
+		if (v->closed() || o->closed()) break;
+		if (v->handshake_done() && o->handshake_done()) break;
+		const uint8_t *p;
+		bool v_out = v->wire_out_peek(&p) > 0;
+		if (!injected && v_out && taken >= after && v->wire_in_room() > 0) {
+			// the victim reads first: M's record is already in its socket buffer
+			size_t off = 0;
+			while (off < inj.size() && !v->closed()) { size_t room = v->wire_in_room(); if (!room) break; size_t q = std::min(room, inj.size() - off); v->wire_in(inj.data() + off, q); off += q; }
+			injected = true;
+			continue;
+		}
+		if (v_out) { move(v, o); taken++; continue; }
+		if (move(o, v)) continue;
+		break;
+	}
+	std::string desc = fmt("%s (%s) %s: record of type %u with payload %s inserted after %u of its own records while another one was pending", victim_server ? "server" : "client", wt::suite_by_id(suite)->name,
+		victim_server ? "with a 512-byte output fragment" : "sending a ClientHello longer than its 512-byte output fragment", type, hex(pl.data(), pl.size(), 16).c_str(), after);
+	if (!injected) { stats.cls("M6:no-opportunity"); stats.eval(); return; }
+	VF_CHECK(!(v->handshake_done() && !v->closed()), "%s: the handshake COMPLETED (victim error %d, peer error %d, peer %s) - the inserted bytes were accepted as handshake data although the peer never sent them and no Finished covers them",
+		desc.c_str(), v->error(), o->error(), o->handshake_done() ? "completed too" : "did not complete");
+	// (the mismatch may be noticed by the peer first, e.g. a hashed extra message found out by its Finished check: the victim then simply never completes)
+	VF_CHECK(v->closed() ? v->error() != 0 : (o->closed() && o->error() != 0), "%s: nobody failed and nobody completed (victim state %#x error %d, peer state %#x error %d)", desc.c_str(), v->state(), v->error(), o->state(), o->error());
+	stats.cls(fmt("M6:type%u/%s", type, victim_server ? "server" : "client"));
+	stats.eval(fmt("M6/%d/%04x/%u/%u/%u/%u", victim_server, suite, type, shape, n, after));
+	if (stats.want_sample()) stats.sample(desc + fmt(" => victim error %d", v->error()));
+}
+
 void target_run(Tape &t)
 {
 	static bool probed = false;
@@ -958,6 +1034,7 @@ void target_run(Tape &t)
 	case 6: m4_case(t); break;
 	case 7: m5_case(t); break;
 	case 8: m3b_case(t); break;
+	case 9: m6_case(t); break;
 	default: m3_case(t); break;
 	}
 }
